@@ -52,6 +52,13 @@ def build_inputs(c):
         s = gen_noise(r)
         if no_hang(s):
             base.append(s); kinds.setdefault(s, 'noise')
+    # witnesses of repaired findings stay in the corpus (corpus/C13/fixed_*.json): a regression is a VIOLATION
+    import os, json as _json, vlib
+    d = os.path.join(vlib.ROOT, 'corpus', 'C13')
+    for fn in sorted(os.listdir(d)):
+        if fn.startswith('fixed_') and fn.endswith('.json'):
+            for s in _json.load(open(os.path.join(d, fn))).get('inputs', []):
+                base.append(s); kinds.setdefault(s, 'multiline')
     heavy = CORPUS_HEAVY if c.tier == 'thorough' else CORPUS_HEAVY[:3]
     for s in heavy:
         base.append(s); kinds.setdefault(s, 'heavy')
@@ -173,11 +180,6 @@ def check(c):
             expected = ('', 1, 1)
         got = (pk.text, pk.is_unit, pk.trailing_newline)
         interrupted_possible = pk.k >= 0 and pk.k < n_uninterrupted
-        # text with a non-C0 control character or U+2028/9: the listed finding's territory.  Hiding it is what the
-        # property wants (a repaired filter does), showing it is the known deviation; the bug-compatible mirror is not consulted
-        odd = a.ref_kind == b'o' and any(0x7f <= ord(ch) <= 0x9f or ord(ch) in (0x2028, 0x2029) for ch in a.ref_text)
-        if odd and got == ('', 1, 1):
-            return
         if got != expected and not (interrupted_possible and got == ('', 1, 1)):
             c.violation('preview-output-differs-from-model', dict(rep, kind='impl-vs-model', got=repr(got), expected=repr(expected),
                                                                    reference=a.ref_text if a.ref_kind == b'o' else a.ref_err), no_input=True)
@@ -202,7 +204,7 @@ def check(c):
         single, known, _ = parse_sx(o)
         if single == 0:
             if known == 1 and c.known_finding('preview_c1_linebreak'):
-                continue
+                continue        # only while the class is listed open; it is fixed (eacb46c), so this is a regression
             c.violation('preview-multi-line', {'kind': 'impl-vs-spec', 'shown_text_codepoints': cps(t)})
     c.sample({'context': CONTEXTS[0][0], 'input': 'a = 7; a + 1', 'shown': [pk.text for pk in answers[(0, 'a = 7; a + 1')].ks]})
     c.extra['contexts'] = [n for n, _, _ in CONTEXTS]
